@@ -213,7 +213,7 @@ def xml_table(views):
         if not v['comment'].startswith('type:'):
             continue
         for s in (v['msgid'], v['msgstr']):
-            if s in tab or any(0xD800 <= ord(c) <= 0xDFFF for c in s):
+            if s in tab:
                 continue
             try:
                 lxml.check_fragment(s)
@@ -309,6 +309,30 @@ def run_mo(payload):
     ev = [(p, n, x) for p, (n, x) in zip(chk.positions, chk.recorded)]
     impl = 'crash ' + crash if crash else ' | '.join(['ok'] + canon_events(entries, ev))
     return {'impl': impl, 'line': request_line(views, False, True, hidden, enc, maxdigits()), 'views': views}
+
+
+def run_xml_ctx(payload):
+    """check_messages on a constructed PO context: entries carrying the po4a comment, strings that no file can
+    contain after decoding (lone surrogates) included"""
+    ents, template, enc = payload
+    import polib
+    IC, cls = _impl_modules()
+    chk = cls('/nonexistent/x.po', options=IC.make_options())
+    f = []
+    for e in ents:
+        m = polib.POEntry(msgid=e['msgid'], msgstr=e['msgstr'], comment='\n'.join(e.get('extracted', [])))
+        m._i18nspector_flags = list(e.get('flags', []))
+        f.append(m)
+    ctx = IC.new_ctx(file=f, is_template=template, is_binary=False, encoding='UTF-8' if enc else None)
+    crash = None
+    try:
+        chk.check_messages(ctx)
+    except Exception as ex:  # noqa
+        crash = type(ex).__name__
+    views = [entry_view(e) for e in f]
+    ev = [(p, n, x) for p, (n, x) in zip(chk.positions, chk.recorded)]
+    impl = 'crash ' + crash if crash else ' | '.join(['ok'] + canon_events(f, ev))
+    return {'impl': impl, 'line': request_line(views, template, False, False, enc, maxdigits()), 'views': views}
 
 
 def impl_flags(payload):
@@ -616,10 +640,11 @@ def o_flags(flags, has_plural, formats):
 
 def o_wellformed(s):
     import xml.parsers.expat as expat
-    root = 'r' + ''.join(random.Random(s).choice('abcdefghij') for _ in range(10))
+    rnd = random.Random(repr(s))
+    root = 'r' + ''.join(rnd.choice('abcdefghij') for _ in range(10))
     p = expat.ParserCreate('UTF-8')
     try:
-        p.Parse(('<%s>%s</%s>' % (root, s, root)).encode('utf-8'), True)
+        p.Parse(('<%s>%s</%s>' % (root, s, root)).encode('utf-8', 'surrogatepass'), True)
         return True
     except expat.ExpatError:
         return False
@@ -720,6 +745,14 @@ def judge(ctx, what, inp, impl_line, exp, demanded):
     if not impl_line.startswith('ok'):
         ctx.fail('crash', inp, '%s: check_messages raised %s' % (what, impl_line))
         return
+    per_entry = {}
+    for x in impl_line.split(' | ')[1:]:
+        m = re.fullmatch(r'(@\d+) dispatch (s[0-9,]*)', x)
+        if m:
+            per_entry.setdefault(m.group(1), []).append(common.dec_str(m.group(2)))
+    for pos, names in per_entry.items():
+        if names != sorted(set(names)):
+            ctx.fail('dispatch-order', inp, '%s: the format checkers of %s ran in the order %r, not in increasing order of their names' % (what, pos, names))
     got = collections.Counter(strip_xml_text(impl_line.split(' | ')[1:]))
     want = collections.Counter(exp)
     dem = collections.Counter(demanded)
@@ -914,6 +947,31 @@ def check(ctx):
             ctx.nontriv(('mo', str(ents), hidden))
     ctx.count('mo_contexts', len(mos))
 
+    # ---- (x) constructed PO contexts for the XML branch, lone surrogates included (D26)
+    xs = []
+    XS = ['<p>ok</p>', '<p>bad', 'plain', '\udc80', '<p>\ud800</p>', 'a\udfffb', '&amp;', '&', '']
+    for a in XS:
+        for b in XS:
+            for fl in ([], ['fuzzy']):
+                for tmpl in (False, True):
+                    for trig in (True, False):
+                        xs.append(([{'msgid': a or 'id', 'msgstr': b, 'flags': fl,
+                                     'extracted': ['type: Content of: <para>'] if trig else ['type: Content of: <1>'], '_trigger': trig}], tmpl, True))
+    xs.append(([{'msgid': '<p>\udc80', 'msgstr': '\udc80', 'flags': [], 'extracted': ['type: Content of: <para>'], '_trigger': True}], False, False))
+    xres = common.pmap('harness.c16', 'run_xml_ctx', xs)
+    xmodel = common.run_driver([r['line'] for r in xres])
+    for (ents, tmpl, enc), r, m in zip(xs, xres, xmodel):
+        ctx.evaluations += 1
+        inp = {'entries': [{k: repr(v) for k, v in e.items()} for e in ents], 'template': tmpl, 'enc': enc}
+        if m != r['impl']:
+            ctx.disagree('check_messages(xml ctx)', inp, m, r['impl'])
+        cat = {'entries': ents, '_enc': enc}
+        exp, dem = oracle(cat, tmpl, formats, offset=0)
+        judge(ctx, 'check_messages(xml ctx)', inp, r['impl'], exp, dem)
+        if ' xml ' in r['impl']:
+            ctx.nontriv(('xml', repr(ents), tmpl))
+    ctx.count('xml_contexts', len(xs))
+
     ctx.samples = [{'catalog_tail': pogen.render(p[1])[-400:], 'kind': p[2]} for p in payloads[len(cats) * 2:len(cats) * 2 + 4]] + \
                   [{'flags': fl} for fl in fcases[::max(1, len(fcases) // 4)]][:4]
     return common.finish(
@@ -925,5 +983,6 @@ def check(ctx):
              '(c) catalogs from the entry grammar (hand-made families + seeded random), kinds po/pot, rendered with pogen.render, through the real Checker.check(): '
              'ordered (entry position, tag, extras) of check_messages vs the model on the entries as parsed; '
              'ORACLE: the documented rules restated in Python on the generated structure, multiset comparison with the tool\'s tags; '
-             '(m) constructed MO contexts for the possible_hidden_strings exemption. '
+             '(m) constructed MO contexts for the possible_hidden_strings exemption; (x) constructed PO contexts for the XML branch incl. lone surrogates; '
+             'the dispatch of the format checkers must be in increasing name order. '
              'non-trivial = distinct input that produced at least one tag / a scanner hit')
